@@ -6,7 +6,7 @@ namespace c04 {
 
 enum Mode : uint8_t { M_DETACH_DISCARD, M_DETACH_AWAIT, M_START_FUTURE, M_START_PROMISE_LIVE, M_START_PROMISE_CLAIMED, M_COAWAIT, M_JOIN, M_FUTURE_CTOR,
                       M_RETURN_FUTURE_FN, M_POOL_RUN, M_DESTROY_UNSTARTED, M_START_PROMISE_RACED, M_START_PROMISE_SESSION, M_COUNT };
-enum Comp : uint8_t { C_VALUE, C_THROW, C_SUSPEND_SAME, C_SUSPEND_OTHER, C_COUNT };
+enum Comp : uint8_t { C_VALUE, C_THROW, C_SUSPEND_SAME, C_SUSPEND_OTHER, C_RESULT_CTOR_THROWS, C_COUNT };   // last: co_return of an expression from which the result cannot be constructed (its constructor throws)
 struct Node { uint8_t mode, comp; };
 struct Prog { uint8_t vt; std::vector<Node> n; uint8_t yields; };
 
@@ -22,7 +22,7 @@ inline Prog decode(hz::Reader &r) {
     if (p.n[0].mode == M_COAWAIT) p.n[0].mode = M_JOIN;
     // a blocking wait inside a coroutine is asserted against - but join() of a child that completes without suspending
     // never waits (start() inside a coroutine runs the child at once), so it is kept for a leaf that returns or throws
-    for (size_t i = 1; i < p.n.size(); i++) if (p.n[i].mode == M_JOIN && !(i + 1 == p.n.size() && (p.n[i].comp == C_VALUE || p.n[i].comp == C_THROW))) p.n[i].mode = M_COAWAIT;
+    for (size_t i = 1; i < p.n.size(); i++) if (p.n[i].mode == M_JOIN && !(i + 1 == p.n.size() && (p.n[i].comp == C_VALUE || p.n[i].comp == C_THROW || p.n[i].comp == C_RESULT_CTOR_THROWS))) p.n[i].mode = M_COAWAIT;
     // a blocking join of the root: nothing below may wait for the joining thread itself
     bool root_blocks = p.n[0].mode == M_JOIN;
     if (root_blocks) for (auto &x : p.n) if (x.comp == C_SUSPEND_SAME) x.comp = C_SUSPEND_OTHER;
@@ -33,7 +33,7 @@ inline Prog decode(hz::Reader &r) {
 static const char *mn[] = {"detach(discarded)", "co_await detach()", "start()->future", "start(live promise)", "start(claimed promise)", "co_await coro", "join()", "future<T>(coro)",
                            "future-returning coroutine function", "thread_pool::run", "destroyed unstarted", "start(promise) racing with a drop of the same promise on another thread",
                            "start(promise) of a future inside an object that only the coroutine's own argument keeps alive (party = callback awaiter on it)"};
-static const char *cn[] = {"returns value", "throws", "suspends on a future resolved by the launching thread", "suspends on a future resolved by another thread"};
+static const char *cn[] = {"returns value", "throws", "suspends on a future resolved by the launching thread", "suspends on a future resolved by another thread", "co_returns an expression whose conversion to the result type throws"};
 inline std::string describe(const Prog &p) {
     static const char *vt[] = {"int", "void", "Counted"};
     hz::Desc d; d << "async<" << vt[p.vt] << "> chain of depth " << (unsigned)p.n.size() << ":";
@@ -148,6 +148,10 @@ R node(Ctx *c, int k, Guard arg, std::shared_ptr<void> keep) {
     if (comp == C_SUSPEND_SAME || comp == C_SUSPEND_OTHER) { co_await *c->gate[(size_t)k]; }
     c->body_done[k]++;
     if (comp == C_THROW) throw val::TestExc(k);
+    if (comp == C_RESULT_CTOR_THROWS) {
+        // the exception leaves the construction of the RESULT inside the bound party: it is delivered like one thrown by the body
+        if constexpr (VT == 2) co_return val::Poison{k}; else throw val::TestExc(k);
+    }
     if constexpr (VT == 1) co_return; else co_return AT<VT>::mk(100 + k);
 }
 
@@ -160,7 +164,7 @@ void run_t(const Prog &p) {
         bool other = false;
         for (size_t k = 0; k < p.n.size(); k++) {
             c.gate.emplace_back(new cocls::future<void>()); c.gate_p.push_back(c.gate.back()->get_promise());
-            if (p.n[k].comp == C_VALUE || p.n[k].comp == C_THROW) c.gate_p.back()();          // unused gate: resolved up front
+            if (p.n[k].comp == C_VALUE || p.n[k].comp == C_THROW || p.n[k].comp == C_RESULT_CTOR_THROWS) c.gate_p.back()();          // unused gate: resolved up front
             if (p.n[k].comp == C_SUSPEND_OTHER) other = true;
         }
         std::thread resolver;
@@ -219,7 +223,7 @@ void run_t(const Prog &p) {
             uint8_t m = p.n[k].mode;
             bool runs = c.root_started && m != M_DESTROY_UNSTARTED && m != M_START_PROMISE_CLAIMED;
             HZ_CHECK(c.body_runs[k] == (runs ? 1 : 0), "coroutine #%zu (%s): body executed %d times, expected %d", k, mn[m], c.body_runs[k], runs ? 1 : 0);
-            int outcome = p.n[k].comp == C_THROW ? 1000 + (int)k : (VT == 1 ? 0 : 100 + (int)k);
+            int outcome = (p.n[k].comp == C_THROW || p.n[k].comp == C_RESULT_CTOR_THROWS) ? 1000 + (int)k : (VT == 1 ? 0 : 100 + (int)k);
             bool has_party = runs && m != M_DETACH_DISCARD && m != M_DETACH_AWAIT;
             int expect = has_party ? outcome : -100;
             if (!c.root_started) expect = k == 0 ? -1 : -100;       // the racing drop won: broken promise, nothing below exists
